@@ -94,7 +94,11 @@ theorem truncate_sim (f : FileH) (d : Dev)
         (tabView d.fs d.img)).1 = .ok () ∧
       CoreEq (absFile d'.fs d'.img f') ((absFile d.fs d.img f).truncate
         (fatAllocator d.fs.totalClusters d.fs.fsInfo.next) (tabView d.fs d.img)).2.1 ∧
-      FileRep d'.fs d'.img f' ∧ InfoOk d'.fs d'.img := by
+      FileRep d'.fs d'.img f' ∧ InfoOk d'.fs d'.img ∧
+      (∀ q, d'.img.getByte q ≠ d.img.getByte q → q = statusOff d.fs ∨
+        ∃ x ∈ fileChain d.fs d.img f, FatEntryPos d.fs x q) ∧
+      (∀ x, x ∉ fileChain d.fs d.img f → tabView d'.fs d'.img x = tabView d.fs d.img x) ∧
+      (∀ x ∈ fileChain d'.fs d'.img f', x ∈ fileChain d.fs d.img f) := by
   obtain ⟨sz, hsz⟩ := hrep.file
   have hinv := hrep.inv
   have hcsp := hg.cs_pos
@@ -117,6 +121,25 @@ theorem truncate_sim (f : FileH) (d : Dev)
   have hg1 : Geo d1.fs d1.img.size := by rw [hs1.size]; exact hg.frame hs1.geom
   have hd1 : FatDev d1.fs d1 := ⟨by rw [hs1.failAt]; exact hfa, hcd1, hs1.wf hwf, hg1⟩
   have htot1 : d1.fs.totalClusters = d.fs.totalClusters := hs1.geom.totalClusters
+  have hstatus := setDirtyFlag_only_status d d1 hr1 hfa (by
+    have := hg.status_lt; have := hg.fat_dev; omega) hwf
+  have hfe : ∀ x q, FatEntryPos d1.fs x q ↔ FatEntryPos d.fs x q := by
+    intro x q; unfold FatEntryPos
+    rw [hs1.geom.fatSlice, hs1.geom.fatType]
+  -- differences of a step that only rewrites FAT entries of clusters of the chain
+  have hdiff : ∀ (d' : Dev) (cs : List Nat), (∀ x ∈ cs, x ∈ fileChain d.fs d.img f) →
+      (∀ q, (∀ x ∈ cs, ¬ FatEntryPos d1.fs x q) → d'.img.getByte q = d1.img.getByte q) →
+      ∀ q, d'.img.getByte q ≠ d.img.getByte q → q = statusOff d.fs ∨
+        ∃ x ∈ fileChain d.fs d.img f, FatEntryPos d.fs x q := by
+    intro d' cs hsub hfi q hne
+    by_cases hsq : q = statusOff d.fs
+    · exact Or.inl hsq
+    · by_cases hex : ∃ x ∈ cs, FatEntryPos d1.fs x q
+      · obtain ⟨x, hx, hxq⟩ := hex
+        exact Or.inr ⟨x, hsub x hx, (hfe x q).mp hxq⟩
+      · exfalso; apply hne
+        rw [hfi q (fun x hx h => hex ⟨x, hx, h⟩)]
+        exact hstatus q hsq
   rw [truncate_eq f e he, run_bind_ok hr1, run_bind_ok (run_getFs d1)]
   -- the handle with the updated editor
   generalize hf1 : ({ f with entry := some (truncEditor f e d1.fs.fatType) } : FileH) = f1
@@ -184,7 +207,7 @@ theorem truncate_sim (f : FileH) (d : Dev)
     have hind : ∀ x ∈ cur :: (fileChain d.fs d.img f).drop (i + 1),
         2 ≤ x ∧ x < d1.fs.totalClusters + 2 ∧ tabView d1.fs d1.img x ≠ .free := by
       intro x hx; rw [← hdrop] at hx; exact hlive x (List.mem_of_mem_drop hx)
-    obtain ⟨d2, hr2, hst2, htv2, hinfo2, hfr2⟩ := run_truncateClusterChain cur _ d1 hd1 hinfoOk1 hchd hndd hind
+    obtain ⟨d2, hr2, hst2, htv2, hinfo2, hfr2, hfi2⟩ := run_truncateClusterChain_fine cur _ d1 hd1 hinfoOk1 hchd hndd hind
     rw [htv1] at htv2
     have hrun : run (truncBody f1) d1 = (.ok f1, d2) := by
       unfold truncBody
@@ -241,7 +264,16 @@ theorem truncate_sim (f : FileH) (d : Dev)
     have hcore : CoreEq (absFile d2.fs d2.img f1)
         { (absFile d.fs d.img f).truncEntry with chain := (fileChain d.fs d.img f).take (i + 1) } :=
       hcore_of d2 f1 _ hgeo2 hda2 hfc2 rfl rfl (by rw [hf1sz]; rfl) hf1first hf1off hf1cur
-    refine ⟨f1, d2, hrun, hs1.trans hst2, rfl, hcore, ?_, hinfo2⟩
+    refine ⟨f1, d2, hrun, hs1.trans hst2, rfl, hcore, ?_, hinfo2,
+      hdiff d2 _ (fun x hx => by rw [← hdrop] at hx; exact List.mem_of_mem_drop hx) hfi2, ?_, ?_⟩
+    rotate_left 1
+    · intro x hx
+      rw [htv2]
+      unfold freedView
+      rw [if_neg (fun h => hx (List.mem_of_mem_drop h)),
+        updV_ne _ _ _ _ (fun e => hx (by rw [e]; exact List.mem_of_getElem? hci))]
+    · intro x hx
+      rw [hfc2] at hx; exact List.mem_of_mem_take hx
     have hbase := AFileInv.of_coreEq hcore hiA
     refine ⟨⟨_, hf1sz⟩, ⟨hbase.cs_pos, hbase.nodup, hbase.first, hbase.cover, hbase.off_le, hbase.size_le,
       hbase.cur, ?_⟩, ?_, ?_, ?_⟩
@@ -284,7 +316,7 @@ theorem truncate_sim (f : FileH) (d : Dev)
     | some n =>
       have hch := hrep.chain n hfirst
       have hch1 : Chain (tabView d1.fs d1.img) n (fileChain d.fs d.img f) := by rw [htv1]; exact hch
-      obtain ⟨d2, hr2, hst2, htv2, hinfo2, hfr2⟩ := run_freeClusterChain n _ d1 hd1 hinfoOk1 hch1 hinv.nodup hlive
+      obtain ⟨d2, hr2, hst2, htv2, hinfo2, hfr2, hfi2⟩ := run_freeClusterChain_fine n _ d1 hd1 hinfoOk1 hch1 hinv.nodup hlive
       have hrun : run (truncBody f1) d1 = (.ok { f1 with firstCluster := none }, d2) := by
         unfold truncBody
         rw [hf1cur, hcc]
@@ -305,7 +337,13 @@ theorem truncate_sim (f : FileH) (d : Dev)
           show ({ f1 with firstCluster := none } : FileH).size?.getD 0 = _
           have : ({ f1 with firstCluster := none } : FileH).size? = f1.size? := rfl
           rw [this, hf1sz]; rfl) rfl hf1off hf1cur
-      refine ⟨_, d2, hrun, hs1.trans hst2, rfl, hcore, ?_, hinfo2⟩
+      refine ⟨_, d2, hrun, hs1.trans hst2, rfl, hcore, ?_, hinfo2, hdiff d2 _ (fun x hx => hx) hfi2, ?_, ?_⟩
+      rotate_left 1
+      · intro x hx
+        rw [htv2, htv1]
+        unfold freedView
+        rw [if_neg hx]
+      · intro x hx; rw [hfc2] at hx; cases hx
       have hbase := AFileInv.of_coreEq hcore hiA
       refine ⟨⟨_, hf1sz⟩, ⟨hbase.cs_pos, hbase.nodup, hbase.first, hbase.cover, hbase.off_le, hbase.size_le,
         hbase.cur, ?_⟩, ?_, ?_, ?_⟩
@@ -329,7 +367,13 @@ theorem truncate_sim (f : FileH) (d : Dev)
       have hcore : CoreEq (absFile d1.fs d1.img f1) (absFile d.fs d.img f).truncEntry :=
         hcore_of d1 f1 _ (FsGeomEq.refl _) hdat1 hfc1 rfl rfl (by rw [hf1sz]; rfl) hf1first hf1off
           hf1cur
-      refine ⟨f1, d1, hrun, hs1, rfl, hcore, ?_, hinfoOk1⟩
+      refine ⟨f1, d1, hrun, hs1, rfl, hcore, ?_, hinfoOk1, hdiff d1 [] (fun x hx => by cases hx) (fun q _ => rfl),
+        fun x _ => by rw [htv1], ?_⟩
+      rotate_left 1
+      · intro x hx
+        have hx' : x ∈ fileChain d1.fs d1.img f1 := hx
+        rw [hfc1] at hx'
+        exact hx'
       have hbase := AFileInv.of_coreEq hcore hiA
       have hfc1' : fileChain d1.fs d1.img f1 = [] := by rw [hfc1]; exact hnil
       refine ⟨⟨_, hf1sz⟩, ⟨hbase.cs_pos, hbase.nodup, hbase.first, hbase.cover, hbase.off_le, hbase.size_le,
